@@ -2,6 +2,7 @@ package main
 
 import (
 	"encoding/binary"
+	"encoding/json"
 	"errors"
 	"flag"
 	"fmt"
@@ -10,6 +11,8 @@ import (
 	"path/filepath"
 	"runtime/debug"
 	"sort"
+	"strconv"
+	"strings"
 	"sync"
 	"time"
 
@@ -247,6 +250,122 @@ func (r *walRun) randomOp(big bool) {
 		if err := r.open(); err != nil {
 			r.rec.Emit("Error", trace.F{"op": "Reopen", "err": err.Error()})
 			return
+		}
+		r.rec.Emit("Reopen", trace.F{})
+		r.proj(nil)
+	}
+}
+
+// scriptHistory (leg R): the calls of a behaviour TLC generated from WALQueueGen, executed in order; `unit` is the
+// number of bytes of one length unit of the model (real page size / model page size, or 1)
+func (r *walRun) scriptHistory(words []string, unit int) {
+	closed := false
+	handle := func(name string) queue.ConsumerGroup {
+		if g := r.groups[name]; g != nil {
+			return g
+		}
+		for _, n := range r.fq.ConsumerGroupNames() {
+			if n == name {
+				g, _ := r.fq.GetOrCreateConsumerGroup(name) // in the map (loaded by the reopen): no store
+				r.groups[name] = g
+				return g
+			}
+		}
+		return nil
+	}
+	num := func(s string) int64 { n, _ := strconv.ParseInt(s, 10, 64); return n }
+	for i, word := range words {
+		f := strings.Split(word, ":")
+		if closed && f[0] != "reopen" {
+			panic(fmt.Sprintf("generated behaviour: step %d %q on a closed queue", i, word))
+		}
+		switch f[0] {
+		case "put":
+			r.put(int(num(f[1])) * unit)
+		case "putfail":
+			r.w.FailAcquire = func(kind string, _ int64) error {
+				if kind == "data" {
+					return errInjectedAcquire
+				}
+				return nil
+			}
+			r.put(int(num(f[1])) * unit)
+			r.w.FailAcquire = nil
+		case "consume":
+			g := handle(f[1])
+			if g == nil {
+				panic("generated behaviour: consume on a group that is not in the map: " + word)
+			}
+			r.rec.Emit("Op", trace.F{"t": "main", "op": "Consume", "g": f[1]})
+			s := g.Consume()
+			r.proj(trace.F{"t": "main", "res": s})
+		case "ack":
+			if handle(f[1]) == nil {
+				panic("generated behaviour: ack on a group that is not in the map: " + word)
+			}
+			r.ack(f[1], num(f[2]))
+		case "setcons":
+			g := handle(f[1])
+			if g == nil {
+				panic("generated behaviour: setcons on a group that is not in the map: " + word)
+			}
+			r.rec.Emit("Op", trace.F{"t": "main", "op": "SetConsumed", "g": f[1], "s": num(f[2])})
+			g.SetConsumedSeq(num(f[2]))
+			r.proj(nil)
+		case "sync":
+			r.rec.Emit("Op", trace.F{"t": "main", "op": "Sync"})
+			r.fq.Sync()
+			r.proj(nil)
+		case "gc":
+			r.rec.Emit("Op", trace.F{"t": "main", "op": "GC"})
+			r.fq.Queue().GC()
+			r.proj(nil)
+			q := r.fq.Queue()
+			for s := int64(-1); s <= q.AppendedSeq()+1; s++ {
+				r.rec.Emit("Get", trace.F{"s": s, "res": getRes(q, r.w, s)})
+			}
+		case "creategroup":
+			if !r.createGroup(f[1], false) {
+				panic(walAbort{})
+			}
+		case "creategroupfail":
+			r.w.FailAcquire = func(kind string, _ int64) error {
+				if kind == "cg" {
+					return errInjectedGroup
+				}
+				return nil
+			}
+			r.createGroup(f[1], true)
+			r.w.FailAcquire = nil
+		case "stopgroup":
+			r.rec.Emit("Op", trace.F{"t": "main", "op": "StopGroup", "g": f[1]})
+			r.fq.StopConsumerGroup(f[1])
+			delete(r.groups, f[1])
+			r.proj(nil)
+		case "down":
+			r.rec.Emit("Down", trace.F{"how": "close"})
+			r.fq.Close()
+			closed = true
+		case "reopen":
+			if err := r.open(); err != nil {
+				r.rec.Emit("Error", trace.F{"op": "Reopen", "err": err.Error()})
+				panic(walAbort{})
+			}
+			closed = false
+			r.rec.Emit("Reopen", trace.F{})
+			r.proj(nil)
+			q := r.fq.Queue()
+			for s := q.AcknowledgedSeq(); s <= q.AppendedSeq()+1; s++ {
+				r.rec.Emit("Get", trace.F{"s": s, "res": getRes(q, r.w, s)})
+			}
+		default:
+			panic("generated behaviour: unknown step " + word)
+		}
+	}
+	if closed {
+		// the behaviour ends on a closed queue: reopen it so that the common epilogue (Close) has something to close
+		if err := r.open(); err != nil {
+			panic(walAbort{})
 		}
 		r.rec.Emit("Reopen", trace.F{})
 		r.proj(nil)
@@ -612,7 +731,21 @@ func walMain(args []string) int {
 	nconc := fs.Int("concurrent", 0, "concurrent-appender histories (gated)")
 	ngconc := fs.Int("groupconc", 0, "histories with one consuming and one acknowledging thread on the same group (gated)")
 	scratch := fs.String("scratch", "", "scratch directory")
+	scripts := fs.String("scripts", "", "leg R: JSON file with behaviours generated by TLC from WALQueueGen (list of lists of calls), run after the other histories, imaged after every store")
+	unit := fs.Int("unit", 1, "bytes per length unit of the generated behaviours")
+	maxImages := fs.Int("maximages", 0, "generated behaviours: at most this many crash images per behaviour (0 = all)")
 	_ = fs.Parse(args)
+	var gen [][]string
+	if *scripts != "" {
+		b, err := os.ReadFile(*scripts)
+		if err == nil {
+			err = json.Unmarshal(b, &gen)
+		}
+		if err != nil {
+			fmt.Println("scripts:", err)
+			return 2
+		}
+	}
 	if *scratch == "" {
 		d, _ := os.MkdirTemp("", "vdrive-wal-")
 		*scratch = d
@@ -627,18 +760,23 @@ func walMain(args []string) int {
 	sum := &trace.Summary{Module: "WALQueue", Extra: map[string]any{}}
 	nimages, nstores := 0, 0
 	distinct := map[string]bool{}
-	for h := 0; h < *nh+*bigs+*bounds+*rollfails+*groupfails; h++ {
+	nfixed := *nh + *bigs + *bounds + *rollfails + *groupfails
+	for h := 0; h < nfixed+len(gen); h++ {
+		generated := h >= nfixed
 		big := h >= *nh && h < *nh+*bigs
 		boundary := h >= *nh+*bigs && h < *nh+*bigs+*bounds
 		rollfail := h >= *nh+*bigs+*bounds && h < *nh+*bigs+*bounds+*rollfails
-		groupfail := h >= *nh+*bigs+*bounds+*rollfails
+		groupfail := h >= *nh+*bigs+*bounds+*rollfails && !generated
 		root := filepath.Join(*scratch, fmt.Sprintf("h%d", h))
 		w := walwrap.NewWorld(root, rec)
 		restore := w.Install()
-		run := &walRun{w: w, rec: rec, rng: rand.New(rand.NewSource(rng.Int63())), image: h < *images || big || groupfail}
+		run := &walRun{w: w, rec: rec, rng: rand.New(rand.NewSource(rng.Int63())), image: h < *images || big || groupfail || generated}
 		reset := trace.F{"mode": "seq", "h": h, "big": big, "boundary": boundary, "rollfail": rollfail}
 		if groupfail {
 			reset = trace.F{"mode": "groupfail", "h": h}
+		}
+		if generated {
+			reset = trace.F{"mode": "generated", "h": h, "unit": *unit}
 		}
 		rec.Reset(reset)
 		rec.Tap = func(b []byte) { run.lines = append(run.lines, append([]byte{}, b...)) }
@@ -666,7 +804,9 @@ func walMain(args []string) int {
 					aborted = true
 				}
 			}()
-			if big {
+			if generated {
+				run.scriptHistory(gen[h-nfixed], *unit)
+			} else if big {
 				run.bigHistory()
 			} else if boundary {
 				run.boundaryHistory()
@@ -700,6 +840,10 @@ func walMain(args []string) int {
 		distinct[fmt.Sprint(len(run.lines), len(w.Log), h)] = true
 		// crash images: the directory after every store, recovered by the real code
 		pts := run.points
+		if generated && *maxImages > 0 && len(pts) > *maxImages {
+			rng.Shuffle(len(pts), func(i, j int) { pts[i], pts[j] = pts[j], pts[i] })
+			pts = pts[:*maxImages]
+		}
 		if big && len(pts) > 12 {
 			// big payloads: sample the points (each image rewrites the payloads)
 			rng.Shuffle(len(pts), func(i, j int) { pts[i], pts[j] = pts[j], pts[i] })
@@ -708,7 +852,7 @@ func walMain(args []string) int {
 		nid := run.nextID + 1000
 		for _, p := range pts {
 			// the reset line itself is part of run.lines? no: Tap is set after Reset
-			if err := recoverImage(rec, w, run.lines[:p.lineN], p.storeK, *scratch, &nid, trace.F{"mode": "image", "h": h, "stores": p.storeK}, *groupTail || groupfail); err != nil {
+			if err := recoverImage(rec, w, run.lines[:p.lineN], p.storeK, *scratch, &nid, trace.F{"mode": "image", "h": h, "stores": p.storeK}, *groupTail || groupfail || generated); err != nil {
 				sum.Unresolved = append(sum.Unresolved, err.Error())
 			}
 			nimages++
